@@ -1,3 +1,4 @@
+import RedoModel.Props.C02c
 import RedoModel.Props.C02b
 import RedoModel.Lemmas.Deps
 import RedoModel.Lemmas.Once.DepsOnceExamples
